@@ -325,10 +325,22 @@ class Facts:
         self.aliases = {}
         if crate == 'bigdecimal':
             import alias
-            self.aliases = alias.find_aliases(self.raw)
-            if self.aliases:
-                txt = alias.apply(txt, self.aliases)
+            ref_adts = alias.ref_table().get('__adts__', {})
+            ta = alias.find_type_aliases(self.raw, ref_adts) if ref_adts else {}
+            if ta:
+                txt = alias.apply(txt, ta)
                 self.raw = json.loads(txt)
+                self.aliases.update({'type ' + k: v for k, v in ta.items()})
+            fa = alias.field_aliases(self.raw, ref_adts) if ref_adts else {}
+            if fa:
+                alias.rename_fields(self.raw, fa)
+                txt = json.dumps(self.raw)
+                self.aliases.update({'field %s.%s' % k: v for k, v in fa.items()})
+            fn_al = alias.find_aliases(self.raw)
+            if fn_al:
+                txt = alias.apply(txt, fn_al)
+                self.raw = json.loads(txt)
+                self.aliases.update(fn_al)
         self.crate = crate
         self.out_dir = self.raw.get('out_dir', '')
         self.fns = {}
